@@ -7,7 +7,7 @@ from ..canon import canon, single_assignments
 from ..deg import DegChecker, TOP
 from ..pm import src
 from ..q import FA, call_name, compare_parts, guard_facts, walk_no_nested
-from ..pat import match_stmt, match_expr, find_stmt
+from ..pat import find_expr, find_stmt, match_expr, match_stmt
 
 TECHNIQUE = "def-use on the returned samples/indices, structural match of the two resampling branches against the statement (R-SIB), shift-degree typing of the three effective-sample-size implementations (R-DEG)"
 
@@ -49,13 +49,16 @@ def run(ctx):
     ctx.require(rej is not None and mul is not None, "could not identify the rejection and multinomial branches")
     W = "log_w"  # parameter of the function
     rst = fa.stmt(rej)
-    b = match_stmt(f"{I} = where({W} > $$u)[0]", rst) or match_stmt(f"{I} = where({W} >= $$u)[0]", rst) or match_stmt(f"{I} = where($$u < {W})[0]", rst) or match_stmt(f"{I} = where($$u <= {W})[0]", rst)
+    inl_f = single_assignments(f.node)
+    unif = (f"log(random.rand({ns}.size))", f"log(random.uniform(size={ns}.size))", f"log(random.random({ns}.size))", f"log(random.random_sample({ns}.size))")
+    # the comparison and the uniforms are read off the (inlined) index expression: locals may or may not be used
+    b = next((m_ for op_ in (">", ">=") for m_ in [match_expr(f"where({W} {op_} $u)[0]", rst.value, inline=inl_f) if isinstance(rst, ast.Assign) else None] if m_ is not None), None)
     ctx.ob("R-SIB", "C16.2", f, "rejection sampling keeps sample i iff its normalised log-weight exceeds log(U_i): indices = where(log_w > log_u)[0]", b is not None, f"`{src(rst)}`", node=rst)
     body = _branch_body(f.node, rst)
     norm = [s_ for s_ in body if match_stmt(f"{W} = {W} - max({W})", s_) is not None or match_stmt(f"{W} = {W} - amax({W})", s_) is not None or match_stmt(f"{W} -= max({W})", s_) is not None]
     ctx.ob("R-SIB", "C16.2", f, "rejection branch normalises the log-weights by their maximum (max-weight sample always kept, -inf never)", len(norm) == 1 and norm[0].lineno < rst.lineno, f"`{src(norm[0]) if norm else None}`")
-    us = [s_ for s_ in body if b is not None and any(match_stmt(p_, s_, {"u": b["u"]}) is not None for p_ in (f"$$u = log(random.rand({ns}.size))", f"$$u = log(random.uniform(size={ns}.size))", f"$$u = log(random.random({ns}.size))"))]
-    ctx.ob("R-SIB", "C16.2", f, "one independent uniform per nested sample: log_u = log(rand(nested_samples.size))", len(us) == 1, f"`{src(us[0]) if us else None}`")
+    oku = b is not None and any(match_expr(p_, b["u"]) is not None for p_ in unif)
+    ctx.ob("R-SIB", "C16.2", f, "one independent uniform per nested sample: log_u = log(rand(nested_samples.size))", oku, f"`{src(b['u']) if b is not None else None}`")
     mst = fa.stmt(mul)
     okm = match_stmt(f"{I} = random.choice({ns}.size, size=n, p=exp({W}), replace=True)", mst) is not None
     ctx.ob("R-SIB", "C16.2", f, "multinomial resampling: n draws with replacement over all nested samples with p = exp(normalised log-weights)", okm, f"`{src(mst)}`", node=mst)
@@ -82,7 +85,7 @@ def run(ctx):
     ]
     for g, var in impls:
         sts = stmts_in_order(g.node)
-        kish = [(s_, b) for s_ in sts for b in [match_stmt("$$n = exp(-logsumexp(2 * $$w))", s_)] if b is not None]
+        kish = find_expr("exp(-logsumexp(2 * $$w))", g.node)
         norm = []
         if len(kish) == 1:
             w = kish[0][1]["w"]
@@ -97,7 +100,7 @@ def run(ctx):
         if g.name == "effective_n_posterior_samples":
             chk.fields["self.log_posterior_weights"] = Fraction(1)
         chk.function(g.node, env)
-        d = env.get(src(kish[0][1]["n"])) if kish else None
+        d = chk.deg(kish[0][0], env) if kish else None
         bad = [m for n_, m in reports if "exponential" in m or "applies" in m]
         ctx.ob("R-DEG", "C16.3", g, "the effective sample size does not change when all log-weights are shifted (degree 0, no exp of a shift-dependent value)", d == Fraction(0) and not [m for m in bad if "logsumexp" in m], f"degree {d}; reports {bad[:2]}")
     ctx.floor("C16.3", 6)
